@@ -15,7 +15,7 @@ for (const name of isa.instructionNames) {
       prefixes: i.prefixes || {},
       operands: i.operands.map(o => ({
         data: o.data, reg: o.reg, mem: o.mem, imm: o.imm, rel: o.rel, regType: o.regType, memSize: o.memSize,
-        implicit: !!o.implicit, optional: !!o.optional, restrict: o.restrict, memSegment: o.memSegment, memOff: !!o.memOff,
+        implicit: !!o.implicit, optional: !!o.optional, restrict: o.restrict, memSegment: o.memSegment, memRegOnly: o.memRegOnly || "", memOff: !!o.memOff,
         memFar: !!o.memFar, vsibReg: o.vsibReg, vsibSize: o.vsibSize, bcstSize: o.bcstSize, immValue: o.immValue,
         immSign: o.immSign, read: !!o.read, write: !!o.write
       }))
